@@ -53,7 +53,13 @@ run registry-swap 1; }
 m revert-D22 && { git revert -n 72e0a9a >/dev/null 2>&1; run revert-D22 1; }
 m revert-D8 && { git revert -n f81eafe >/dev/null 2>&1; run revert-D8 1; }
 m harmless-uid-local && { sed -i 's/    return snprintf(resultBuf, resultBufSize, "%u", getuid());/    uid_t me = getuid();\n    return snprintf(resultBuf, resultBufSize, "%u", me);/' src/datasource/uid.c; run harmless-uid-local 0; }
-m harmless-env-rename && { sed -i 's/\benv\b/value/g' src/datasource/env.c; run harmless-env-rename 0; }
+m harmless-env-rename && { sed -i 's/char \*env = getenv(arg);/char *value = getenv(arg);/; s/NULL == env/NULL == value/; s/"%s", env)/"%s", value)/' src/datasource/env.c; run harmless-env-rename 0; }
+m harmless-username-order && { python3 - <<'PY'
+p='src/util/pwd.c'; s=open(p).read()
+s=s.replace('    if (NULL == pwd_uid) {\n        snprintf(username, LOGIN_NAME_MAX, "user-%u", (unsigned int)uid);\n    } else {\n        snprintf(username, LOGIN_NAME_MAX, "%s", pwd_uid->pw_name);\n    }','    if (pwd_uid != NULL) {\n        snprintf(username, LOGIN_NAME_MAX, "%s", pwd_uid->pw_name);\n    } else {\n        snprintf(username, LOGIN_NAME_MAX, "user-%u", (unsigned int)uid);\n    }')
+open(p,'w').write(s)
+PY
+run harmless-username-order 0; }
 m harmless-tty-else && { python3 - <<'PY'
 p='src/datasource/tty.c'; s=open(p).read()
 s=s.replace('    retVal = ttyname_r(0, ttyPath, ttyPathLen);\n    if (0 != retVal) {','    retVal = ttyname_r(STDIN_FILENO, ttyPath, ttyPathLen);\n    if (retVal != 0) {')
